@@ -152,6 +152,50 @@ def h_closure(xs, k):
         out.append(add(x))
     return out
 
+def h_inout(q, k):
+    if k > 2:
+        q = q + 1
+    r = q * 2
+    return q, r
+
+def h_mut(xs):
+    acc = []
+    for x in xs:
+        acc.append(ev(x) * 2)
+    n = len(acc)
+    return acc, n
+
+def h_tmp(d, k):
+    p = d.get(k, {})
+    return p.get('x', False) is True
+
+def h_pure2(x, y, lim):
+    limit = lim + 1
+    xo = x >= limit
+    return xo or y >= limit
+
+def h_stmtpred(x):
+    t = ev(('pred', x))
+    u = t[1] * 2
+    return u > 2
+
+def h_uses_t(a):
+    t = a * 3
+    ev(('t', t))
+    return t + 1
+
+def h_none_or(a, b):
+    if a <= 1:
+        return None
+    s = set()
+    s.add(a)
+    if len(s) != 1:
+        return None
+    return (a, b)
+
+TABLE = (('a', 1, 10), ('b', 2, 20), ('c', 3, 30))
+DISPATCH = {'nw': ('ul', 'nw'), 'sw': ('ll', 'sw', None)}
+
 class CM:
     def __enter__(self):
         ev('enter')
@@ -320,6 +364,116 @@ def c_in_loop(xs):
         out.append((p, q))
     return out
 
+def c_inout(q, k):
+    q, r = h_inout(q, k)
+    return q + r
+
+def c_mut(a, b):
+    acc, n = h_mut([a, b, a])
+    acc.append(n)
+    return acc
+
+def c_tmp(a, b):
+    d = {1: {'x': True}, 2: {'x': 1}, 3: {}}
+    if a > 0 and h_tmp(d, b):
+        return 'yes'
+    return 'no'
+
+def c_pure2(a, b):
+    if a and h_pure2(a, b, 2):
+        return ev('out')
+    return 'in'
+
+def c_quant(a, b):
+    return all(h_stmtpred(x) for x in [a, b, 3] if x != 4)
+
+def c_quant_any(a, b):
+    return any(h_stmtpred(x) for x in [a, b])
+
+def c_comp(a, b):
+    return [h_uses_t(v) for v in [a, b] if v]
+
+def c_boolassign(a, b):
+    r = bool(a) and h_stmtpred(b)
+    return r
+
+def c_deadname(a, b):
+    t = a + 100
+    ev(('caller-t', t))
+    x = h_uses_t(b)
+    return x
+
+def c_livename(a, b):
+    t = a + 100
+    x = h_uses_t(b)
+    return x, t
+
+def c_sentinel(a, b):
+    r = h_none_or(a, b)
+    if r is not None:
+        return ev(('hit', r))
+    return ev('miss')
+
+def c_flag(a, b):
+    needs = False
+    if a:
+        q = b * 2
+        needs = not q > 4
+    if needs:
+        return ev('sub')
+    return ev('full')
+
+def c_flag1(a, b):
+    skip = a and b > 1
+    if skip:
+        a = a + 1
+    return a
+
+def c_flags2(a, b):
+    lo = a < 2
+    hi = b > 3
+    if not (lo or hi):
+        return 'mid'
+    return 'edge'
+
+def c_table(k):
+    for name, v, w in TABLE:
+        if k == v:
+            return name, w
+    raise Err('unknown')
+
+def c_counter(a, b):
+    out = []
+    idx = 0
+    for r in range(a):
+        base = r * 10
+        for c in range(b):
+            out.append((idx, base + c))
+            idx += 1
+    return out
+
+def c_counter1(xs):
+    out = []
+    i = 0
+    for x in xs:
+        out.append((i, x))
+        i += 1
+    return out
+
+def c_lambda(a, b):
+    skip = lambda t: t == a
+    return [x for x in [1, 2, 3, 4] if not skip(x)] + [skip(b)]
+
+def c_plain(a, b):
+    a = a + b
+    b = b * 2
+    return a, b
+
+def c_withifexp(a):
+    with (CM() if a > 2 else CM()):
+        ev(('body', a))
+    return a
+
 def c_meth(v, a):
     return K(v).caller_m(a)
 
@@ -365,6 +519,13 @@ def main():
         'c_cond': itertools.product(vals, vals), 'c_ifexp': itertools.product(vals, vals), 'c_in_loop': [([1, 2, 3, 4],), ([],)],
         'c_meth': itertools.product(vals, vals), 'c_set': itertools.product(vals, vals), 'c_cond2': itertools.product(vals, vals),
         'c_reset': itertools.product(vals, vals), 'c_while': [(v,) for v in vals], 'c_rng': itertools.product(vals, vals),
+        'c_inout': itertools.product(vals, vals), 'c_mut': itertools.product(vals, vals), 'c_tmp': itertools.product(vals, vals),
+        'c_pure2': itertools.product(vals, vals), 'c_quant': itertools.product(vals, vals), 'c_quant_any': itertools.product(vals, vals),
+        'c_comp': itertools.product(vals, vals), 'c_boolassign': itertools.product(vals, vals), 'c_deadname': itertools.product(vals, vals),
+        'c_livename': itertools.product(vals, vals), 'c_sentinel': itertools.product(vals, vals), 'c_flag': itertools.product(vals, vals),
+        'c_flag1': itertools.product(vals, vals), 'c_flags2': itertools.product(vals, vals), 'c_table': [(v,) for v in vals],
+        'c_counter': itertools.product(vals, vals), 'c_counter1': [([],), ([5],), ([5, 6, 7],)], 'c_lambda': itertools.product(vals, vals),
+        'c_plain': itertools.product(vals, vals), 'c_withifexp': [(v,) for v in vals],
         'c_rng_swapped': itertools.product(vals, vals), 'c_closure': itertools.product(vals, vals), 'c_try_rest': [(v,) for v in vals], 'c_try_ret': [(v,) for v in vals], 'c_try_norets': [(v,) for v in vals], 'c_rng_self': itertools.product(vals, vals),
     }
     bad = 0
@@ -384,7 +545,8 @@ def main():
     print('%d executions compared, %d mismatches' % (n, bad))
     # every form must actually have been exercised
     want = {'h_pred', 'h_expr', 'h_stmt', 'h_none', 'h_search', 'h_all', 'h_any', 'h_try', 'h_with', 'h_kw', 'h_default', 'h_nested', 'h_shadow',
-            'K._m', 'K._set', 'K._reset_then', 'h_rng', 'h_closure', 'h_try_ret', 'h_try_norets'}
+            'K._m', 'K._set', 'K._reset_then', 'h_rng', 'h_closure', 'h_try_ret', 'h_try_norets', 'h_inout', 'h_mut', 'h_tmp', 'h_pure2',
+            'h_stmtpred', 'h_uses_t', 'h_none_or'}
     missing = want - set(inl)
     if missing:
         print('NOT EXERCISED: %s' % sorted(missing))
